@@ -480,7 +480,9 @@ def _tagmarkup_recurse(tm, attr):
     if not isinstance(tm, (str, bytes)):
         raise TagMarkupException(f"Invalid markup element: {tm!r}")
 
-    # text
+    # text (an empty string contributes no attribute run: zero-length runs truncate the rendered row)
+    if not tm:
+        return [tm], []
     return [tm], [(attr, len(tm))]
 
 
